@@ -25,11 +25,23 @@ RULE = ('option combinations {cse} x {graded} x {symbolcls} x {wrapper} (16) x s
         'same order, == polynomials; sw proj normsq: blade by blade, absent = 0) - each case holds for ALL inputs.  A failed '
         'validation is reported only with a concrete integer input on which the real function and the model differ blade by '
         'blade; a mere difference of stored keys is a fidelity note.  Non-trivial = non-empty result; distinct = distinct '
-        '(algebra, options, operator, key tuples).')
+        '(algebra, options, operator, key tuples).  '
+        'Clause generated-code, operators that divide (generated_code_div): random algebras d = 1..4 (as above, not graded) x {cse} x {symbolcls default / sympy for d <= 3} x inv on '
+        'random key patterns (sparse <= 3 blades, one grade, scalar+bivector, full even, all blades for d <= 3; random storage order) and div '
+        'with <= 3 x <= 3 blades; patterns whose generation raises ZeroDivisionError (identically zero denominator, degenerate signatures) '
+        'are counted and compared with the model denominator (zero polynomial), not validated.  The text (d = 1/(...), a**(-n), cse lines) '
+        'is translated to the SLP with division of Model/SlpDiv.v and `validate_inv / validate_div A keys keys_out program` is evaluated by '
+        'Coq: fractions of polynomials, cross-multiplied against the closed-form numerator / denominator of Model/Inverse.v, output keys = '
+        'non-zero blades of the symbolic numerator - each `true` holds for ALL operands in every field-like coefficient ring.  A failed '
+        'validation is reported only with a concrete Fraction input on which the real function differs blade by blade from the model '
+        'evaluated over Qc (and x * result from kingdon itself is shown); otherwise a fidelity note.')
 TRUSTED = ['kingdon with default options is the reference; the model enters through the naturality theorem only',
            'clause generated-code: tools/genvalidate.py (python ast -> SLP of Model/Slp.v, ~100 lines, fail closed; the text is checked '
            'to compile to the code object the function runs) and python evaluating + - * ** unary-minus on numbers as the ring '
-           'operations; sympy.cse, the sympy printer and KingdonPrinter are NOT trusted for a validated function']
+           'operations; sympy.cse, the sympy printer and KingdonPrinter are NOT trusted for a validated function',
+           'clause generated-code for inv / div: tools/genvalidate.py program_div_of (python ast -> SLP with division of Model/SlpDiv.v, the '
+           'same statement shape, plus EXPR / EXPR and EXPR ** (-n) read as 1 / EXPR ** n; fail closed) and python evaluating / on Fractions as '
+           'the division of the coefficient field (ZeroDivisionError on a zero divisor)']
 ASSUMPTIONS = ['Fraction arithmetic exact; results involving sqrt / float constants compared to 1e-9 relative']
 
 OPS2 = ['gp', 'sw', 'cp', 'acp', 'ip', 'sp', 'lc', 'rc', 'op', 'rp', 'proj', 'add', 'sub', 'div']
@@ -396,6 +408,7 @@ def run(R, tier):
 
     # ---- clause generated-code: translation validation of the text kingdon generates (all inputs per function) ----
     generated_code(R, tier)
+    generated_code_div(R, tier)
 
 
 def gen_spec(rng):
@@ -559,5 +572,186 @@ REPLAY_BY_RERUN = False     # generated-code records are self-contained; every o
 
 def replay(R, rec):
     if (rec.get('class') or {}).get('clause') == 'generated-code' and 'inputs' in (rec.get('replay') or {}):
+        if (rec.get('replay') or {}).get('op') in ('inv', 'div'):
+            return replay_generated_div(rec)
         return replay_generated(rec)
     return kv.replay_by_rerun(__import__('sys').modules[__name__], rec['property'], rec)
+
+
+# ---------------------------------------------------------------------------------------------------------------------------
+# clause generated-code for the operators that DIVIDE: alg.inv[keys], alg.div[keys_x, keys_y]  (Model/SlpDiv.v, Theory/SlpDiv.v)
+def _div_pattern(rng, alg, style):
+    d = alg.d
+    canon = list(alg.canon2bin.values())
+    if style == 'sparse':
+        ks = rng.sample(canon, rng.randint(1, min(len(canon), 3)))
+    elif style == 'grade':
+        ks = list(alg.indices_for_grade[rng.randrange(d + 1)])
+    elif style == 'rotor':
+        ks = [k for g in (0, 2) if g <= d for k in alg.indices_for_grade[g]]
+    elif style == 'even':
+        ks = [k for g in range(0, d + 1, 2) for k in alg.indices_for_grade[g]]
+    else:
+        ks = canon[:]
+    if rng.random() < 0.5:
+        rng.shuffle(ks)
+    return tuple(int(k) for k in ks)
+
+
+def _frac_inputs(rng, keys_in, j):
+    hi = 2 if j < 8 else (5 if j < 16 else 30)
+    return [[Fraction(rng.randint(-hi, hi) or 1, rng.choice((1, 1, 2, 3))) for _ in ks] for ks in keys_in]
+
+
+def _oracle_product(spec, op, keys_in, keys_out, inputs, out):
+    """kingdon's own products on Fractions: x * result (inv), result * y - x (div); text for the report"""
+    try:
+        alg = algs.make_impl(spec)
+        mk = lambda ks, vs: alg.multivector(keys=tuple(ks), values=[Fraction(v) for v in vs])
+        r = mk(keys_out, out)
+        if op == 'inv':
+            p = mk(keys_in[0], inputs[0]) * r
+            return 'x * result = ' + str({int(k): str(v) for k, v in zip(p.keys(), p.values()) if v != 0}) + ' (an inverse gives {0: 1})'
+        p = r * mk(keys_in[1], inputs[1]) - mk(keys_in[0], inputs[0])
+        return 'result * y - x = ' + str({int(k): str(v) for k, v in zip(p.keys(), p.values()) if v != 0}) + ' (x / y gives {})'
+    except Exception as e:  # noqa
+        return f'(product check not available: {type(e).__name__})'
+
+
+def generated_code_div(R, tier):
+    import genvalidate as gv
+    rng = R.rng
+    pool = algs.AlgPool()
+    cases, zcases = [], []
+    n = 100 if tier == 'quick' else 1500
+    for it in range(n):
+        spec = gen_spec(rng)
+        cse = rng.random() < 0.55
+        op = 'div' if it % 4 == 3 else 'inv'
+        sym = rng.random() < 0.15
+        alg = algs.make_impl(spec, cse=cse)       # a fresh algebra: the function is generated now
+        d = alg.d
+        if sym and d <= 3:                        # sympy.Symbol coefficients while generating (d = 4: seconds of sympy per function)
+            import sympy
+            alg = algs.make_impl(spec, cse=cse, codegen_symbolcls=sympy.Symbol)
+        else:
+            sym = False
+        if op == 'inv':
+            if it < 10:
+                style = ('sparse', 'grade', 'rotor', 'even', 'full')[it % 5]        # every pattern kind at least twice
+            else:
+                style = rng.choice(('sparse', 'sparse', 'sparse', 'grade', 'rotor', 'even', 'full'))
+            if d == 4 and style == 'full':
+                style = 'rotor'                   # 16 indeterminates: too slow; the full even subalgebra (8) in a third of the cases
+            if d == 4 and style == 'even' and rng.random() < 0.65:
+                style = 'sparse'
+            keys = [_div_pattern(rng, alg, style)]
+        else:
+            style = 'sparse'
+            keys = [_div_pattern(rng, alg, 'sparse'), _div_pattern(rng, alg, rng.choice(('sparse', 'sparse', 'grade') if d <= 3 else ('sparse',)))]
+        oname = {'cse': cse, 'graded': False, 'symbolcls': 'sympy' if sym else 'default'}
+        R.count(f'generated-code-div:d={d}'); R.count('generated-code-div:op=' + op); R.count(f'generated-code-div:cse={cse}')
+        R.count('generated-code-div:symbolcls=' + oname['symbolcls'])
+        R.count('generated-code-div:pattern=' + style); R.count('generated-code-div:basis=' + algs.kind(spec))
+        try:
+            c = gv.case_inv(pool, spec, alg, keys[0], oname) if op == 'inv' else gv.case_div(pool, spec, alg, keys[0], keys[1], oname)
+        except gv.Untranslatable as e:
+            R.count('generated-code-div:untranslated'); R.count(f'generated-code-div:untranslated:{op}:{str(e)[:60]}')
+            R.notes.append(f'generated-code: {op} {keys} in Algebra({algs.describe(spec)}) {oname} is outside the translated subset: {e}')
+            continue
+        except ZeroDivisionError:
+            # an identically zero denominator (degenerate signatures): no function exists; the model's symbolic denominator must be the
+            # zero polynomial too
+            R.count('generated-code-div:generation-zero-division')
+            R.case(('generated-code-div-zde', algs.describe(spec), op, tuple(keys)), True)
+            ref, dfn = pool.ref(spec)
+            ky = keys[-1]
+            zcases.append({'check': algs.with_alg(ref, f'match inv_symbolic A {kv.zlist(ky)} 0 with Ok (_, den_) => pisz den_ | Err _ => false end'),
+                           'defs': [dfn], 'meta': {'spec': spec, 'op': op, 'keys_in': [list(k) for k in keys]}})
+            continue
+        except Exception as e:  # noqa   any other exception while generating: cse must not matter
+            try:
+                alg0 = algs.make_impl(spec)
+                gv.generate_div(alg0, op, keys)
+                default_raises = None
+            except Exception as e0:  # noqa
+                default_raises = type(e0).__name__
+            R.count('generated-code-div:generation-raises')
+            R.case(('generated-code-div-raises', algs.describe(spec), cse, op, tuple(keys)), True)
+            if default_raises != type(e).__name__:
+                R.violation({'clause': 'fails-under-options', 'op': op, 'cse': cse, 'graded': False},
+                            {'algebra': spec, 'options': oname, 'op': op, 'keys_in': [list(k) for k in keys], 'error': f'{type(e).__name__}: {e}'[:200]},
+                            f'generating {op} for keys {[list(k) for k in keys]} in Algebra({algs.describe(spec)}) with {oname} raised {type(e).__name__}: {e}'[:400]
+                            + f'; with default options: {default_raises or "no error"}')
+            continue
+        m = c['meta']
+        R.count('generated-code-div:validated-functions')
+        if m['lets'] > 1:
+            R.count('generated-code-div:with-cse-assignments')
+        R.case(('generated-code-div', algs.describe(spec), cse, op, tuple(keys)), bool(m['keys_out']),
+               sample={'clause': 'generated-code', 'algebra': algs.describe(spec), 'options': oname, 'op': op,
+                       'keys_in': m['keys_in'], 'keys_out': m['keys_out'], 'source': m['source'][:400]})
+        cases.append(c)
+    if zcases:
+        zbad, _ = kv.run_cases('C13divz', zcases, prelude=gv.PRELUDE, imports=gv.IMPORTS_DIV, shard=60)
+        for i in zbad:
+            m = zcases[i]['meta']
+            R.fidelity_notes += 1
+            R.notes.append(f'generated-code: generating {m["op"]} {m["keys_in"]} in Algebra({algs.describe(m["spec"])}) raises ZeroDivisionError, the '
+                           f'closed-form denominator of the model is not the zero polynomial')
+    bad, _ = kv.run_cases('C13div', cases, prelude=gv.PRELUDE, imports=gv.IMPORTS_DIV, shard=12)
+    if not bad:
+        return
+    # a validation failed: exhibit a concrete rational input on which the real function and the model (over Qc) differ
+    wcases, owner = [], []
+    for i in bad:
+        m = cases[i]['meta']
+        for j in range(24):
+            wcases.append(gv.concrete_case_div(pool, m, _frac_inputs(rng, m['keys_in'], j))); owner.append(i)
+    wbad, wshown = kv.run_cases('C13divw', wcases, prelude=gv.PRELUDE, imports=gv.IMPORTS_DIV, shard=48)
+    first = {}
+    for w in wbad:
+        first.setdefault(owner[w], w)
+    need = [w for w in list(first.values())[:8] if w not in wshown]
+    if need:
+        defs = sorted({dfn for w in need for dfn in wcases[w]['defs']})
+        outs = kv.eval_terms('C13divw', [wcases[w]['show'] for w in need], prelude=gv.PRELUDE + '\n'.join(defs), imports=gv.IMPORTS_DIV)
+        if len(outs) == len(need):
+            wshown.update({w: o[-1500:] for w, o in zip(need, outs)})
+    for i in bad:
+        m = cases[i]['meta']
+        cls = {'clause': 'generated-code', 'op': m['op'], 'cse': m['options'].get('cse'), 'graded': False,
+               'symbolcls': m['options'].get('symbolcls'), 'null_generator': 0 in algs.norm(_named(m['spec']))['sig']}
+        if i not in first:
+            # equal to the model's value on every blade at every point tried (where both return): stored keys / raising differ at most
+            R.fidelity_notes += 1
+            R.notes.append(f'generated-code: {m["op"]} {m["keys_in"]} in Algebra({algs.describe(m["spec"])}) {m["options"]}: the validation against '
+                           f'the closed-form fraction failed (stored keys {m["keys_out"]}), no rational input with a different value found')
+            continue
+        w = first[i]
+        wm = wcases[w]['meta']
+        prod = _oracle_product(m['spec'], m['op'], m['keys_in'], m['keys_out'], wm['inputs'], wm['output'])
+        R.violation(cls, {'algebra': m['spec'], 'options': m['options'], 'op': m['op'], 'keys_in': m['keys_in'], 'keys_out': m['keys_out'],
+                          'source': m['source'], 'inputs': wm['inputs'], 'impl_output': wm['output'], 'model': wshown.get(w)},
+                    f'generated code of {m["op"]} for keys {m["keys_in"]} in Algebra({algs.describe(m["spec"])}) with {m["options"]} does not '
+                    f'compute the model inverse/quotient: on coefficients {wm["inputs"]} the generated function returns {wm["output"]} for keys '
+                    f'{m["keys_out"]}, the model (numerators, denominators) gives {str(wshown.get(w))[-300:]}; {prod}; text: {m["source"][:300]!r}')
+
+
+def replay_generated_div(rec):
+    """self-contained replay of a generated-code record of inv / div: regenerate the function, run it on the recorded rational input,
+    compare blade by blade with the model evaluated by Coq over Qc.  True = agrees."""
+    import genvalidate as gv
+    r = rec['replay']
+    spec, o = r['algebra'], r['options']
+    opts = {'cse': o.get('cse', True)}
+    if o.get('symbolcls') == 'sympy':
+        import sympy
+        opts['codegen_symbolcls'] = sympy.Symbol
+    alg = algs.make_impl(spec, **opts)
+    pool = algs.AlgPool()
+    keys_out, func, src = gv.generate_div(alg, r['op'], r['keys_in'])
+    meta = {'spec': spec, 'op': r['op'], 'keys_in': r['keys_in'], 'keys_out': list(keys_out), 'func': func}
+    inputs = [[Fraction(v) for v in x] for x in r['inputs']]
+    bad, _ = kv.run_cases('C13divr', [gv.concrete_case_div(pool, meta, inputs)], prelude=gv.PRELUDE, imports=gv.IMPORTS_DIV)
+    return not bad
